@@ -1,6 +1,8 @@
 package gvc
 
 import (
+	"os"
+	"runtime/debug"
 	"fmt"
 	"go/types"
 	"sort"
@@ -28,6 +30,7 @@ type UnitResult struct {
 	Panic    string         `json:"engine_panic,omitempty"`
 	Inputs   []InputLeaf    `json:"-"`
 	NAssume  int            `json:"assume_calls"`
+	Standalone int          `json:"standalone_checks"`
 }
 
 // Options for one unit.
@@ -137,6 +140,9 @@ func VerifyFunc(p *Program, fn *ssa.Function, cfg Config, opt Options) (res *Uni
 	defer func() {
 		if r := recover(); r != nil {
 			res.Panic = fmt.Sprint(r)
+			if os.Getenv("GVC_TRACE") != "" {
+				fmt.Fprintf(os.Stderr, "PANIC in %s: %v\n%s\n", res.Name, r, debug.Stack())
+			}
 			u.limit("engine panic: %v", r)
 		}
 		res.Obls = u.Results()
@@ -152,6 +158,7 @@ func VerifyFunc(p *Program, fn *ssa.Function, cfg Config, opt Options) (res *Uni
 		res.SolverS = u.S.Time.Seconds()
 		res.Inputs = u.inputs
 		res.NAssume = u.NAssumeCalls
+		res.Standalone = u.Standalone
 		if len(u.S.Errors) > 0 {
 			res.Limits = append(res.Limits, "engine panic: solver rejected a query: "+u.S.Errors[0])
 		}
@@ -288,7 +295,7 @@ func (r *UnitResult) Summary() string {
 			unknown++
 		}
 	}
-	return fmt.Sprintf("%-60s obls=%d proved=%d failed=%d unknown=%d paths=%d returns=%d limits=%d t=%.1fs", r.Name, len(r.Obls), proved, failed, unknown, r.Paths, r.Returns, len(r.Limits), r.TimeS)
+	return fmt.Sprintf("%-60s obls=%d proved=%d failed=%d unknown=%d paths=%d returns=%d limits=%d t=%.1fs (checks=%d/%.1fs standalone=%d)", r.Name, len(r.Obls), proved, failed, unknown, r.Paths, r.Returns, len(r.Limits), r.TimeS, r.Checks, r.SolverS, r.Standalone)
 }
 
 func sortObls(os []*Obligation) {
